@@ -17,7 +17,7 @@ Inductive const :=
 | CBytes (s : bytes)
 | CInt (z : Z)             (* int64 *)
 | CFloat (bits : Z)        (* math.Float64bits *)
-| CBigInt (text : bytes).  (* big.Int.Text(10): canonical decimal text, see Spec.wt_const *)
+| CBigInt (z : Z).         (* *big.Int, any integer *)
 
 Record funcode := {
   f_name : bytes; f_line : Z; f_col : Z;
@@ -58,7 +58,7 @@ Definition const_eqb (a b : const) : bool :=
   | CBytes x, CBytes y => bytes_eqb x y
   | CInt x, CInt y => x =? y
   | CFloat x, CFloat y => x =? y
-  | CBigInt x, CBigInt y => bytes_eqb x y
+  | CBigInt x, CBigInt y => x =? y
   | _, _ => false
   end.
 Definition funcode_eqb (a b : funcode) : bool :=
